@@ -57,7 +57,7 @@ func (gb *GraphBranch) GetEndNode() map[string]bool {
 func newGraphBranch[T any](r *runnablePacker[T, []string, any], endNodes map[string]bool) *GraphBranch {
 	return &GraphBranch{
 		invoke: func(ctx context.Context, input any) (output []string, err error) {
-			nInput, ok := input.(T)
+			nInput, ok := assertType[T](input)
 			if !ok {
 				panic(newUnexpectedInputTypeErr(generic.TypeOf[T](), reflect.TypeOf(input)))
 			}
